@@ -8,6 +8,8 @@ import random
 import signal
 import time
 import traceback
+import logging
+logging.disable(logging.CRITICAL)
 from collections import Counter
 from multiprocessing import Pool
 
